@@ -224,6 +224,20 @@ func MX() []*descriptorpb.FileDescriptorProto {
 	nest.OneofField("o", "oe", 5, E(e1))
 	nest.Rep("e1s", 6, E(e1))
 
+	// a list whose elements hold a chain of singular messages: the depth of a message is its nesting depth, whatever its
+	// index in a list (C18: ten elements fit rapidproto's list bound, the chain stays well inside its depth limit)
+	late := f.Msg("Late")
+	lateItem := late.Nested("Item")
+	lc1 := lateItem.Nested("C1")
+	lc2 := lc1.Nested("C2")
+	lc3 := lc2.Nested("C3")
+	lc3.Field("v", 1, S(Int32))
+	lc2.Field("c", 1, M(lc3.Full()))
+	lc1.Field("c", 1, M(lc2.Full()))
+	lateItem.Field("c", 1, M(lc1.Full()))
+	lateItem.Rep("subs", 2, M(lc2.Full()))
+	late.Rep("items", 1, M(lateItem.Full()))
+
 	// a later sibling with nested declarations of its own (the flattened declaration order matters)
 	nest2 := f.Msg("Nest2")
 	q := nest2.Nested("Q")
